@@ -13,6 +13,9 @@ SIGNALS = [
     ("s0", "VfWidget", "ranked", (ge.UINT, ge.DOUBLE)),
     ("s0", "VfWidget", "moded", (ge.MODE,)),
     ("s0", "VfWidget", "deep", (ge.INT, ge.STR, ge.BOOL)),    # deep(int a, QString b = {}, bool c = false): 3 entries
+    ("s0", "VfWidget", "paired", (ge.INT, ge.INT)),
+    ("s0", "VfWidget", "named", (ge.STR, ge.STR, ge.STR)),
+    ("s1", "VfSub", "paired", (ge.INT, ge.INT)),
     ("s0", "VfWidget", "ivalChanged", ()),
     ("s0", "VfWidget", "bvalChanged", (ge.BOOL,)),
     ("s0", "VfWidget", "svalChanged", (ge.STR,)),
@@ -25,7 +28,7 @@ SIGNALS = [
     ("s1", "VfSub", "extraChanged", ()),
     ("s1", "VfSub", "poked", (ge.INT, ge.STR)),             # inherited signal on a derived sender
 ]
-SIGNAL_OWNER = {"fired": "VfWidget", "poked": "VfWidget", "nudged": "VfWidget", "triple": "VfWidget", "told": "VfWidget",
+SIGNAL_OWNER = {"paired": "VfWidget", "named": "VfWidget", "fired": "VfWidget", "poked": "VfWidget", "nudged": "VfWidget", "triple": "VfWidget", "told": "VfWidget",
                 "pointed": "VfWidget", "ranked": "VfWidget", "moded": "VfWidget", "deep": "VfWidget", "ivalChanged": "VfWidget",
                 "bvalChanged": "VfWidget", "svalChanged": "VfWidget", "clicked": "QAbstractButton", "toggled": "QAbstractButton",
                 "pressed": "QAbstractButton", "cursorPositionChanged": "QLineEdit", "textEdited": "QLineEdit",
@@ -114,7 +117,7 @@ class CbDoc:
                 text = ge.pr_stmts(body, rng, 0)[0].rstrip(";")
             else:
                 body = g.body(params)
-                if nparams >= 2 and params[-1][1] in (ge.INT, ge.STR, ge.BOOL, ge.DOUBLE, ge.UINT) and rng.random() < 0.5:
+                if nparams >= 2 and params[-1][1] in (ge.INT, ge.STR, ge.BOOL, ge.DOUBLE, ge.UINT) and rng.random() < 0.7:
                     # the last parameter is reported first: whatever happens to the ones in front of it, it keeps its position
                     body = [ge.N("log", ge.VOID, (ge.N("local", params[-1][1], v=params[-1][0]),), v="log")] + body
                 inner = "\n".join(ge.pr_stmts(body, rng, 3))
@@ -122,10 +125,10 @@ class CbDoc:
                 # it keep their positions)
                 shown = {n: n for n, _ in params}
                 unused = [n for n, _ in params if not re.search(r"\b%s\b" % n, inner)]
-                if unused and rng.random() < 0.5:
-                    # (preferably one that is followed by a parameter the body does use)
-                    names = [n for n, _ in params]
-                    lead = [n for n in unused if any(m not in unused for m in names[names.index(n) + 1:])]
+                # (preferably -- and then nearly always -- one that is followed by a parameter the body does use)
+                names = [n for n, _ in params]
+                lead = [n for n in unused if any(m not in unused for m in names[names.index(n) + 1:])]
+                if unused and rng.random() < (0.9 if lead else 0.4):
                     shown[rng.choice(lead or unused)] = "_"
                     self.features.add("placeholder-parameter")
                 plist = ", ".join("%s: %s" % (shown[n], PARAM_ANNOT[t]) for n, t in params)
